@@ -106,12 +106,11 @@ Definition api_expire_gt (k : bytes) (seconds now : Z) (d : db) : Z * db :=
   match write_key k None now d with
   | (None, d1) => (0, d1)
   | (Some m, d1) =>
-      (* a missing deadline is first set to now (and stays so even if nothing else happens) *)
-      let d2 := if exp_of m d1 =? 0 then set_exp m now d1 else d1 in
+      let base := if exp_of m d1 =? 0 then now else exp_of m d1 in
       let ms := wrap64 (seconds * 1000) in
-      if exp_of m d2 <? wrap64 (now + ms)
-      then (1, exp_commit k m (wrap64 (exp_of m d2 + ms)) d2)
-      else (0, d2)
+      if base <? wrap64 (now + ms)
+      then (1, exp_commit k m (wrap64 (base + ms)) d1)
+      else (0, d1)
   end.
 (* ExpireAt family: [ts] is timestamp.UnixMilli() *)
 Definition api_expireat (k : bytes) (ts now : Z) (d : db) : Z * db :=
@@ -137,8 +136,7 @@ Definition api_expireat_gt (k : bytes) (ts now : Z) (d : db) : Z * db :=
   match write_key k None now d with
   | (None, d1) => (0, d1)
   | (Some m, d1) =>
-      let d2 := if exp_of m d1 =? 0 then set_exp m ts d1 else d1 in
-      if exp_of m d2 <? ts then (1, exp_commit k m ts d2) else (1, d2)
+      if exp_of m d1 <? ts then (1, exp_commit k m ts d1) else (1, d1)
   end.
 
 (* Keys(pattern): index order; expired ones filtered; no touch *)
